@@ -7,6 +7,20 @@
 #include "probe.h"
 #include <unistd.h>
 
+// The functions probed below get the struct iwal that iwal_create builds for default options (buffer sizes; no
+// buffer memory, no threads): a probe that passes a null or all-zero struct answers for a process that cannot exist.
+static struct iwal* probe_wal_struct(void) {
+  static struct iwkv kv;
+  static struct iwal wal;
+  memset(&wal, 0, sizeof(wal));
+  wal.iwkv = &kv;
+  wal.wal_buffer_sz = 8UL * 1024 * 1024;
+  wal.checkpoint_buffer_sz = 1024ULL * 1024 * 1024;
+  wal.bufsz = (uint32_t) (wal.wal_buffer_sz - sizeof(WBSEP));
+  wal.fh = -1;
+  return &wal;
+}
+
 // Does _rollforward_exl (recover_mode 1) stop at the last savepoint when the log holds a reset mark?
 // The pinned source rebases wmm/fsz to the mark but not fpos, so the loop runs past the recovery point.
 // Log: [SEP SET(off 2 := 3) SAVEPOINT] [SEP RESET] [SEP SET(off 0 := 1) SAVEPOINT] [SEP SET(off 1 := 2)];
@@ -34,14 +48,12 @@ static int replay_rebases_fpos(void) {
   f = fopen(wp, "wb"); if (!f) return -1; fwrite(log, 1, (size_t) (p - log), f); fclose(f);
   int se = dup(2), dn = open("/dev/null", O_WRONLY);
   dup2(dn, 2); // the replay logs a warning with a timestamp
-  static struct iwkv kv;
-  static struct iwal wal;
-  wal.iwkv = &kv;
-  wal.fh = open(wp, O_RDWR);
+  struct iwal *pw = probe_wal_struct();
+  pw->fh = open(wp, O_RDWR);
   IWFS_EXT extf;
   IWFS_EXT_OPTS eo = { .file = { .path = mp, .omode = IWFS_OWRITE | IWFS_OCREATE }, .use_locks = false };
   if (!iwkv_init() && !iwfs_exfile_open(&extf, &eo)) {
-    iwrc rc = _rollforward_exl(&wal, &extf, 1);
+    iwrc rc = _rollforward_exl(pw, &extf, 1);
     extf.close(&extf);
     f = fopen(mp, "rb");
     if (f) {
@@ -51,7 +63,7 @@ static int replay_rebases_fpos(void) {
     }
   }
   dup2(se, 2);
-  close(wal.fh); unlink(mp); unlink(wp); rmdir(dir);
+  close(pw->fh); unlink(mp); unlink(wp); rmdir(dir);
   return res;
 }
 int main(void) {
@@ -78,7 +90,7 @@ int main(void) {
     memcpy(log, &sep, sizeof(sep));
     log[sizeof(sep)] = WOP_SAVEPOINT;
     off_t fpos = -1, rpos = -1;
-    _last_fix_and_reset_points(0, log, sizeof(sep) + 6, &fpos, &rpos);
+    _last_fix_and_reset_points(probe_wal_struct(), log, sizeof(sep) + 6, &fpos, &rpos);
     ZV("WAL_SCAN_SP_CHECKS_AVAIL", fpos == 0 ? 1 : 0);
   }
   {
